@@ -113,6 +113,11 @@ pub fn run(prop: &str, tier: &str, seed: u64, hints: Option<&str>) {
     match prop {
         "C17" => c17(&mut rng, thorough, &hints, &mut rep),
         "C01" => c01(&mut rng, thorough, &hints, &mut rep),
+        "C12" => c12(&mut rng, thorough, &hints, &mut rep),
+        "C13" => c13(&mut rng, thorough, &hints, &mut rep),
+        "C05" => c05(&mut rng, thorough, &hints, &mut rep),
+        "C03" => c03(&mut rng, thorough, &hints, &mut rep),
+        "C04" => c04(&mut rng, thorough, &hints, &mut rep),
         "C18" => c18(&mut rng, thorough, &hints, &mut rep),
         "C10" => c10(&mut rng, thorough, &hints, &mut rep),
         "C16" => c16(&mut rng, thorough, &hints, &mut rep),
@@ -585,7 +590,7 @@ fn c10(rng: &mut Rng, thorough: bool, hints: &[Vec<String>], rep: &mut Report) {
         rep.distinct += 1;
         if let Some(b) = bad {
             // known class: the target level is so close to full scale that the (<= 5%) overshoot leaves the i32 range
-            let class = if (to as i64).abs() as f64 >= 0.95 * 2147483648.0 || (from as i64 - to as i64).abs() as f64 > 2147483648.0 * 1.0 {
+            let class = if (to as i64).abs() as f64 >= 0.95 * 2147483648.0 {
                 "lp2-overflow-overshoot-beyond-i32"
             } else {
                 "lp2-wrap"
@@ -974,4 +979,681 @@ fn c01(rng: &mut Rng, thorough: bool, hints: &[Vec<String>], rep: &mut Report) {
         rep.violation(&a, &b, &c, &d, &e);
     }
     rep.sample(format!("cossin(0) = {:?}, cossin(1<<29) = {:?}", cossin(0), cossin(1 << 29)));
+}
+
+// ------------------------------------------------------------------ C12 / C13 (CIC)
+/// N-fold self-convolution of the length-R boxcar (exact, in u128; R^N <= 65^6 fits easily)
+fn cic_kernel(r: usize, n: usize) -> Vec<i128> {
+    let mut h = vec![1i128];
+    for _ in 0..n {
+        let mut g = vec![0i128; h.len() + r - 1];
+        for (i, a) in h.iter().enumerate() {
+            for j in 0..r {
+                g[i + j] += *a;
+            }
+        }
+        h = g;
+    }
+    h
+}
+
+fn fir_at(h: &[i128], x: &[i128], t: usize) -> i128 {
+    let mut acc = 0i128;
+    for (k, hk) in h.iter().enumerate() {
+        if k <= t {
+            acc = acc.wrapping_add(hk.wrapping_mul(x[t - k]));
+        }
+    }
+    acc
+}
+
+macro_rules! c12_case {
+    ($t:ty, $w:expr, $n:expr, $rng:expr, $rep:expr) => {{
+        let rng: &mut Rng = $rng;
+        let rep: &mut Report = $rep;
+        const NN: usize = $n;
+        let rate = match rng.below(8) { 0 => 0u32, 1 => 1 << rng.below(7), _ => rng.below(65) as u32 };
+        let r = rate as usize + 1;
+        let h = cic_kernel(r, NN);
+        let len = 1 + rng.below(6 * r as u64 + 20) as usize;
+        let big = rng.chance(1, 2);
+        let xs: Vec<$t> = (0..len).map(|_| if big { rng.int($w) as $t } else { rng.range(-5, 5) as $t }).collect();
+        let xi: Vec<i128> = xs.iter().map(|v| *v as i128).collect();
+        let mut c = Cic::<$t, NN>::new(rate);
+        let inp = format!("Cic::<i{}, {}>::new({}).decimate over {:?}{}", $w, NN, rate, &xs[..xs.len().min(10)], if xs.len() > 10 { " ..." } else { "" });
+        for (t, x) in xs.iter().enumerate() {
+            let tick = c.tick();
+            let o = c.decimate(*x);
+            let expect_emit = t % r == 0;
+            if o.is_some() != expect_emit || tick != expect_emit {
+                rep.violation("cic-dec-emit", "emits exactly on inputs 1, R+1, 2R+1, ...; tick() predicts it", &inp, &format!("emit={} at t={}", expect_emit, t), &format!("some={} tick={}", o.is_some(), tick));
+                break;
+            }
+            if let Some(y) = o {
+                let want = fir_at(&h, &xi, t) as $t; // reduction modulo 2^bits
+                if y != want || c.get_decimate() != y {
+                    rep.violation("cic-dec-fir", "output = boxcar^N FIR modulo 2^bits", &inp, &format!("{} at t={}", want, t), &format!("{} (get_decimate {})", y, c.get_decimate()));
+                    break;
+                }
+                if rate == 0 && y != *x {
+                    rep.violation("cic-dec-identity", "rate 0 is the identity", &inp, &x.to_string(), &y.to_string());
+                    break;
+                }
+            }
+        }
+        rep.count("cic-dec-samples", len as u64);
+        rep.distinct += 1;
+        // gain / gain_log2
+        let g_exact = (r as u128).checked_pow(NN as u32);
+        if let Some(ge) = g_exact {
+            if ge < (1u128 << ($w - 1)) {
+                if let Some(g) = guard(|| c.gain()) {
+                    if g as i128 != ge as i128 {
+                        rep.violation("cic-gain", "gain() = R^N", &inp, &ge.to_string(), &g.to_string());
+                    }
+                } else {
+                    rep.violation("cic-gain", "gain() = R^N (fits, must not panic)", &inp, &ge.to_string(), "PANIC");
+                }
+            }
+            let gl = c.gain_log2();
+            let pow2 = r.is_power_of_two();
+            let ok = (gl < 128 && (1u128 << gl) >= ge || gl >= 128) && (!pow2 || (gl < 128 && (1u128 << gl) == ge));
+            if !ok {
+                rep.violation("cic-gain-log2", "gain_log2() >= log2(gain), exact for power-of-two R", &inp, &format!("gain {}", ge), &gl.to_string());
+            }
+        }
+    }};
+}
+
+fn c12(rng: &mut Rng, thorough: bool, _hints: &[Vec<String>], rep: &mut Report) {
+    let n = if thorough { 60000 } else { 6000 };
+    for _ in 0..n {
+        let order = rng.below(7);
+        macro_rules! byn {
+            ($t:ty, $w:expr) => {
+                match order {
+                    0 => c12_case!($t, $w, 0, rng, rep),
+                    1 => c12_case!($t, $w, 1, rng, rep),
+                    2 => c12_case!($t, $w, 2, rng, rep),
+                    3 => c12_case!($t, $w, 3, rng, rep),
+                    4 => c12_case!($t, $w, 4, rng, rep),
+                    5 => c12_case!($t, $w, 5, rng, rep),
+                    _ => c12_case!($t, $w, 6, rng, rep),
+                }
+            };
+        }
+        match rng.below(5) {
+            0 => byn!(i8, 8),
+            1 => byn!(i16, 16),
+            2 => byn!(i32, 32),
+            3 => byn!(i64, 64),
+            _ => byn!(i128, 128),
+        }
+    }
+    // extreme rates for gain_log2
+    for rate in [u32::MAX, u32::MAX - 1, 1 << 31, (1 << 31) - 1, 65535, 65536] {
+        let c = Cic::<i128, 3>::new(rate);
+        let gl = c.gain_log2();
+        let ge = (rate as u128 + 1).pow(3);
+        let ok = gl >= 128 || (1u128 << gl) >= ge;
+        if !ok {
+            rep.violation("cic-gain-log2", "gain_log2() upper bound at extreme rates", &format!("Cic::<i128,3>::new({})", rate), &format!(">= log2({})", ge), &gl.to_string());
+        }
+    }
+    rep.sample("Cic::<i8, 3>::new(4).decimate over wrapping inputs".into());
+}
+
+macro_rules! c13_case {
+    ($t:ty, $w:expr, $n:expr, $rng:expr, $rep:expr) => {{
+        let rng: &mut Rng = $rng;
+        let rep: &mut Report = $rep;
+        const NN: usize = $n;
+        let rate = match rng.below(8) { 0 => 0u32, 1 => 1 << rng.below(6), _ => rng.below(33) as u32 };
+        let r = rate as usize + 1;
+        let h = cic_kernel(r, NN);
+        let nlow = 1 + rng.below(3 * NN as u64 + 8) as usize;
+        // magnitudes small enough that nothing overflows: |x| * (2R)^N < 2^(w-2)
+        let headroom = (($w - 2) as i32 - (NN as i32) * ((2 * r) as f64).log2().ceil() as i32).max(1) as u32;
+        let constant = rng.chance(1, 3);
+        let x0 = rng.int(headroom.min(40)) as $t;
+        let low: Vec<$t> = (0..nlow).map(|_| if constant { x0 } else { rng.int(headroom.min(40)) as $t }).collect();
+        let held: Vec<i128> = low.iter().flat_map(|v| std::iter::repeat(*v as i128).take(r)).collect();
+        let mut c = Cic::<$t, NN>::new(rate);
+        let inp = format!("Cic::<i{}, {}>::new({}).interpolate, low-rate {:?}", $w, NN, rate, &low[..low.len().min(10)]);
+        let mut li = 0;
+        for t in 0..held.len() {
+            let tick = c.tick();
+            if tick != (t % r == 0) {
+                rep.violation("cic-int-tick", "tick() true exactly every R calls", &inp, &format!("{} at t={}", t % r == 0, t), &tick.to_string());
+                break;
+            }
+            let arg = if tick { li += 1; Some(low[li - 1]) } else { None };
+            match guard(|| c.interpolate(arg)) {
+                None => {
+                    rep.violation("cic-int-panic", "no panic when nothing overflows", &inp, "a value", &format!("PANIC at t={}", t));
+                    break;
+                }
+                Some(y) => {
+                    let want = fir_at(&h, &held, t);
+                    if y as i128 != want || c.get_interpolate() != y {
+                        rep.violation("cic-int-fir", "output = boxcar^N FIR of the held input, exactly", &inp, &format!("{} at t={}", want, t), &format!("{} (get_interpolate {})", y, c.get_interpolate()));
+                        break;
+                    }
+                    if constant && t >= c.response_length() && (y as i128) != (x0 as i128) * (r as i128).pow(NN as u32) {
+                        rep.violation("cic-int-const", "constant input gives x*gain after response_length outputs", &inp, &((x0 as i128) * (r as i128).pow(NN as u32)).to_string(), &y.to_string());
+                        break;
+                    }
+                }
+            }
+        }
+        rep.count("cic-int-samples", held.len() as u64);
+        rep.distinct += 1;
+        // settle_interpolate: fixed point, equals the state reached by feeding x for ever
+        let mut a = Cic::<$t, NN>::new(rate);
+        if guard(|| a.settle_interpolate(x0)).is_some() {
+            let before = a.verif_raw();
+            let mut ok = true;
+            for t in 0..r {
+                let arg = if t == 0 { Some(x0) } else { None };
+                match guard(|| a.interpolate(arg)) {
+                    Some(y) => ok &= (y as i128) == (x0 as i128) * (r as i128).pow(NN as u32),
+                    None => ok = false,
+                }
+            }
+            if !ok || a.verif_raw() != before {
+                rep.violation("cic-settle", "settle_interpolate(x) is the fixed point of feeding x", &format!("Cic::<i{}, {}>::new({}).settle_interpolate({})", $w, NN, rate, x0), &format!("{:?}", before), &format!("{:?}", a.verif_raw()));
+            }
+            let mut b = Cic::<$t, NN>::new(rate);
+            let mut fine = true;
+            for t in 0..(NN + 2) * r {
+                let arg = if t % r == 0 { Some(x0) } else { None };
+                if guard(|| b.interpolate(arg)).is_none() {
+                    fine = false;
+                    break;
+                }
+            }
+            if fine && b.verif_raw() != before {
+                rep.violation("cic-settle", "settle_interpolate(x) equals the state reached by feeding x", &format!("Cic::<i{}, {}>::new({}) x={}", $w, NN, rate, x0), &format!("{:?}", before), &format!("{:?}", b.verif_raw()));
+            }
+        }
+    }};
+}
+
+fn c13(rng: &mut Rng, thorough: bool, _hints: &[Vec<String>], rep: &mut Report) {
+    let n = if thorough { 60000 } else { 6000 };
+    for _ in 0..n {
+        let order = rng.below(6);
+        macro_rules! byn {
+            ($t:ty, $w:expr) => {
+                match order {
+                    0 => c13_case!($t, $w, 0, rng, rep),
+                    1 => c13_case!($t, $w, 1, rng, rep),
+                    2 => c13_case!($t, $w, 2, rng, rep),
+                    3 => c13_case!($t, $w, 3, rng, rep),
+                    4 => c13_case!($t, $w, 4, rng, rep),
+                    _ => c13_case!($t, $w, 5, rng, rep),
+                }
+            };
+        }
+        match rng.below(3) {
+            0 => byn!(i32, 32),
+            1 => byn!(i64, 64),
+            _ => byn!(i128, 128),
+        }
+    }
+    rep.sample("Cic::<i64, 3>::new(7).interpolate with arbitrary low-rate sequence".into());
+}
+
+// ------------------------------------------------------------------ C05 / C03 / C04 (num, biquad)
+fn floor_div(a: i128, b: i128) -> i128 {
+    a.div_euclid(b)
+}
+
+macro_rules! macc_check {
+    ($t:ty, $a:ty, $w:expr, $q:expr, $u:expr, $s:expr, $mn:expr, $mx:expr, $e1:expr, $l:expr) => {{
+        let (u, s, mn, mx, e1): ($t, $a, $t, $t, $t) = ($u, $s, $mn, $mx, $e1);
+        let one: i128 = 1i128 << $q;
+        let total_c = (s as i128).checked_add((u as i128) * one + e1 as i128);
+        let total = total_c.unwrap_or(0);
+        let fits = total_c.is_some() && total >= <$a>::MIN as i128 && total <= <$a>::MAX as i128;
+        let r = guard(|| u.macc(s, mn, mx, e1));
+        let inp = format!("<i{} as Coefficient>::macc(u={}, s={}, min={}, max={}, e1={})", $w, u, s, mn, mx, e1);
+        if fits {
+            let yf = floor_div(total, one);
+            let want_y = if yf < mn as i128 { mn as i128 } else if yf > mx as i128 { mx as i128 } else { yf };
+            let want_e = total.rem_euclid(one);
+            match r {
+                None => $l.violation("macc-panic", "no panic when the exact total fits", inp, format!("({}, {})", want_y, want_e), "PANIC".into()),
+                Some((y, e)) => {
+                    if y as i128 != want_y || e as i128 != want_e {
+                        $l.violation("macc-exact", "floor((s + u*ONE + e1)/ONE) clamped, remainder in [0, ONE)", inp, format!("({}, {})", want_y, want_e), format!("({}, {})", y, e));
+                    }
+                }
+            }
+        }
+        $l.count += 1;
+    }};
+}
+
+fn c05(rng: &mut Rng, thorough: bool, _hints: &[Vec<String>], rep: &mut Report) {
+    // i8: the whole (u, s) plane x e1 lattice x limit pairs (thorough: complete e1 range)
+    let limit_pairs: Vec<(i8, i8)> = vec![(i8::MIN, i8::MAX), (-4, 3), (0, 3), (-128, -125), (124, 127), (-64, 63), (4, 7)];
+    let e1s: Vec<i8> = if thorough { (0..64).collect() } else { vec![0, 1, 31, 32, 63] };
+    let lp = &limit_pairs;
+    let es = &e1s;
+    par(256, |c, l| {
+        let u = c as u8 as i8;
+        for s in i16::MIN..=i16::MAX {
+            for &(mn, mx) in lp.iter() {
+                for &e1 in es.iter() {
+                    macc_check!(i8, i16, 8, 6, u, s, mn, mx, e1, l);
+                }
+            }
+        }
+    }, rep);
+    rep.distinct += 256 * 65536 * (limit_pairs.len() * e1s.len()) as u64;
+    rep.count("macc-i8-complete-(u,s)-plane", 0);
+    // wider types: lattice + random
+    let n = if thorough { 4_000_000 } else { 400_000 };
+    let mut l = Local::default();
+    for i in 0..n {
+        macro_rules! one {
+            ($t:ty, $a:ty, $w:expr, $q:expr) => {{
+                let g = $w - $q;
+                let u = rng.int($w) as $t;
+                let s = if rng.chance(1, 2) { rng.int(2 * $w) } else { rng.int($w + $q) } as $a;
+                let mut mn = rng.int($w) as $t;
+                let mut mx = rng.int($w) as $t;
+                if mn > mx { core::mem::swap(&mut mn, &mut mx); }
+                mn &= !(((1 as $t) << g) - 1);
+                mx |= ((1 as $t) << g) - 1;
+                let e1 = (rng.wide() & ((1u128 << $q) - 1)) as $t;
+                macc_check!($t, $a, $w, $q, u, s, mn, mx, e1, l);
+                // mul_scaled / div_scaled
+                let (a, b) = (rng.int($w) as $t, rng.int($w) as $t);
+                let one: i128 = 1i128 << $q;
+                let wm = floor_div(a as i128 * b as i128 + one / 2, one);
+                if wm >= <$t>::MIN as i128 && wm <= <$t>::MAX as i128 {
+                    let got = guard(|| a.mul_scaled(b));
+                    if got.map(|v| v as i128) != Some(wm) {
+                        l.violation("mul-scaled", "exact product over ONE rounded half-up", format!("<i{}>::mul_scaled({}, {})", $w, a, b), wm.to_string(), format!("{:?}", got));
+                    }
+                }
+                if b != 0 {
+                    let wd = (a as i128 * one) / (b as i128); // truncation toward zero
+                    if wd >= <$t>::MIN as i128 && wd <= <$t>::MAX as i128 {
+                        let got = guard(|| a.div_scaled(b));
+                        if got.map(|v| v as i128) != Some(wd) {
+                            l.violation("div-scaled", "exact quotient truncated toward zero", format!("<i{}>::div_scaled({}, {})", $w, a, b), wd.to_string(), format!("{:?}", got));
+                        }
+                    }
+                }
+                if guard(|| a.mul_scaled(<$t as Coefficient>::ONE)) != Some(a) {
+                    l.violation("mul-one", "multiplying by ONE is the identity", format!("<i{}>::mul_scaled({}, ONE)", $w, a), a.to_string(), "other".into());
+                }
+                l.count += 3;
+            }};
+        }
+        match i % 4 {
+            0 => one!(i8, i16, 8, 6),
+            1 => one!(i16, i32, 16, 14),
+            2 => one!(i32, i64, 32, 30),
+            _ => one!(i64, i128, 64, 62),
+        }
+    }
+    // i8 mul/div: all pairs
+    for a in i8::MIN..=i8::MAX {
+        for b in i8::MIN..=i8::MAX {
+            let wm = floor_div(a as i128 * b as i128 + 32, 64);
+            if wm >= -128 && wm <= 127 && guard(|| a.mul_scaled(b)).map(|v| v as i128) != Some(wm) {
+                l.violation("mul-scaled", "exact product over ONE rounded half-up", format!("<i8>::mul_scaled({}, {})", a, b), wm.to_string(), "other".into());
+            }
+            if b != 0 {
+                let wd = (a as i128 * 64) / b as i128;
+                if wd >= -128 && wd <= 127 && guard(|| a.div_scaled(b)).map(|v| v as i128) != Some(wd) {
+                    l.violation("div-scaled", "exact quotient truncated toward zero", format!("<i8>::div_scaled({}, {})", a, b), wd.to_string(), "other".into());
+                }
+            }
+            l.count += 2;
+        }
+    }
+    // -2 representable, quantize nearest
+    if <i8 as Coefficient>::NEG_ONE.wrapping_mul(2) != i8::MIN || <i16 as Coefficient>::NEG_ONE.wrapping_mul(2) != i16::MIN
+        || <i32 as Coefficient>::NEG_ONE.wrapping_mul(2) != i32::MIN || <i64 as Coefficient>::NEG_ONE.wrapping_mul(2) != i64::MIN {
+        l.violation("neg-two", "-2 is exactly representable", "NEG_ONE * 2".into(), "T::MIN".into(), "other".into());
+    }
+    for _ in 0..(n / 10) {
+        let v = (rng.next() as i64 as f64) / (i64::MAX as f64) * 1.99;
+        let q16 = <i16 as Coefficient>::quantize(v);
+        let q32 = <i32 as Coefficient>::quantize(v);
+        if (q16 as f64 - v * 16384.0).abs() > 0.5 + 1e-9 || (q32 as f64 - v * 1073741824.0).abs() > 0.5 + 1e-6 {
+            l.violation("quantize", "quantising a real number gives the nearest coefficient", format!("quantize({})", v), "nearest".into(), format!("{} {}", q16, q32));
+        }
+        l.count += 2;
+    }
+    for (a, b, c, d, e) in l.viol {
+        rep.violation(&a, &b, &c, &d, &e);
+    }
+    rep.evaluations += l.count;
+    rep.distinct += l.count;
+    rep.count("wider-types+mul/div/quantize", 0);
+    rep.sample("<i8>::macc over the complete (u, s) plane".into());
+}
+
+macro_rules! bq_exact_case {
+    ($t:ty, $a:ty, $w:expr, $q:expr, $rng:expr, $rep:expr) => {{
+        let rng: &mut Rng = $rng;
+        let rep: &mut Report = $rep;
+        let g = $w - $q;
+        let one: i128 = 1i128 << $q;
+        let co = |rng: &mut Rng| -> $t { if rng.chance(1, 2) { rng.int($w) as $t } else { rng.int($q + 1) as $t } };
+        let ba: [$t; 5] = [co(rng), co(rng), co(rng), co(rng), co(rng)];
+        let mut bq = idsp::iir::Biquad::<$t>::from(ba);
+        let u = if rng.chance(1, 2) { 0 } else { rng.int($w) as $t };
+        bq.set_u(u);
+        let (mut mn, mut mx) = (<$t>::MIN, <$t>::MAX);
+        if rng.chance(1, 2) {
+            mn = rng.int($w) as $t;
+            mx = rng.int($w) as $t;
+            if mn > mx { core::mem::swap(&mut mn, &mut mx); }
+            mn &= !(((1 as $t) << g) - 1);
+            mx |= ((1 as $t) << g) - 1;
+        }
+        bq.set_min(mn);
+        bq.set_max(mx);
+        let cfg_before = bq.clone();
+        let small = rng.chance(1, 2);
+        let sm = |rng: &mut Rng| -> $t { if small { rng.int($w / 2) as $t } else { rng.int($w) as $t } };
+        let five = rng.chance(1, 2);
+        let mut xy5: [$t; 5] = [sm(rng), sm(rng), sm(rng), sm(rng), (rng.wide() & ((1u128 << $q) - 1)) as $t];
+        for _ in 0..(1 + rng.below(20)) {
+            let x0 = sm(rng);
+            let e1: i128 = if five { xy5[4] as i128 } else { 0 };
+            let prods = [ba[0] as i128 * x0 as i128, ba[1] as i128 * xy5[0] as i128, ba[2] as i128 * xy5[1] as i128, -(ba[3] as i128 * xy5[2] as i128), -(ba[4] as i128 * xy5[3] as i128)];
+            let amin = <$a>::MIN as i128;
+            let amax = <$a>::MAX as i128;
+            // exact arithmetic in (i128 high part, remainder) is overkill: use checked i128 and a wide f64 guard
+            let approx: f64 = prods.iter().map(|p| *p as f64).sum::<f64>() + u as f64 * one as f64 + e1 as f64;
+            let mut partial_ok = true;
+            let mut acc: Option<i128> = Some(0);
+            let mut walk: i128 = 0; // wrapping walk in 128 bits = exact modulo 2^128
+            for p in prods.iter() {
+                walk = walk.wrapping_add(*p);
+                acc = acc.and_then(|a| a.checked_add(*p));
+                partial_ok &= matches!(acc, Some(a) if a >= amin && a <= amax);
+            }
+            let off = u as i128 * one + e1;
+            let total = walk.wrapping_add(off);
+            // the exact total fits iff the f64 estimate is well inside and the wrapped value is in range,
+            // or the checked chain succeeded
+            let exact_total = acc.and_then(|a| a.checked_add(off));
+            let fits = match exact_total {
+                Some(t) => t >= amin && t <= amax,
+                None => approx.abs() < 1.6e38 && total >= amin && total <= amax && approx.abs() < (amax as f64) * 0.999,
+            };
+            let sum_fits = true;
+            let _ = sum_fits;
+            let before = xy5;
+            let r = if five {
+                guard(|| { let y = bq.update(&mut xy5, x0); (y, xy5) })
+            } else {
+                let mut xy4: [$t; 4] = [xy5[0], xy5[1], xy5[2], xy5[3]];
+                guard(|| { let y = bq.update(&mut xy4, x0); (y, [xy4[0], xy4[1], xy4[2], xy4[3], before[4]]) })
+            };
+            let inp = format!("Biquad<i{}>{{ba:{:?},u:{},min:{},max:{}}}.update::<{}>({:?}, {})", $w, ba, u, mn, mx, if five { 5 } else { 4 }, &before[..if five { 5 } else { 4 }], x0);
+            if bq != cfg_before {
+                rep.violation("biquad-config", "update never modifies the configuration", &inp, "unchanged", "changed");
+            }
+            if fits {
+                let yf = floor_div(total, one);
+                let wy = yf.clamp(mn as i128, mx as i128);
+                let we = if five { total.rem_euclid(one) } else { before[4] as i128 };
+                match r {
+                    None => {
+                        let class = if !partial_ok { "biquad-partial-sum-overflow" } else { "biquad-panic" };
+                        rep.violation(class, "no panic while the exact sum fits the accumulator", &inp, &format!("y={}", wy), "PANIC");
+                        break;
+                    }
+                    Some((y, st)) => {
+                        let want_state = [x0 as i128, before[0] as i128, wy, before[2] as i128, we];
+                        let got_state: Vec<i128> = st.iter().map(|v| *v as i128).collect();
+                        if y as i128 != wy || got_state != want_state {
+                            rep.violation("biquad-exact", "exact clamped difference equation; state shifts", &inp, &format!("y={} state={:?}", wy, want_state), &format!("y={} state={:?}", y, got_state));
+                            break;
+                        }
+                        if (y as i128) < mn as i128 || (y as i128) > mx as i128 {
+                            rep.violation("biquad-limits", "min <= y <= max", &inp, &format!("[{}, {}]", mn, mx), &y.to_string());
+                        }
+                        xy5 = st;
+                    }
+                }
+            } else {
+                match r { Some((_, st)) => xy5 = st, None => break }
+            }
+            rep.count("biquad-int-updates", 1);
+        }
+        rep.distinct += 1;
+    }};
+}
+
+fn c03(rng: &mut Rng, thorough: bool, _hints: &[Vec<String>], rep: &mut Report) {
+    let n = if thorough { 400_000 } else { 40_000 };
+    for i in 0..n {
+        match i % 4 {
+            0 => bq_exact_case!(i8, i16, 8, 6, rng, rep),
+            1 => bq_exact_case!(i16, i32, 16, 14, rng, rep),
+            2 => bq_exact_case!(i32, i64, 32, 30, rng, rep),
+            _ => bq_exact_case!(i64, i128, 64, 62, rng, rep),
+        }
+    }
+    // IDENTITY / HOLD / proportional for every value class
+    for _ in 0..n {
+        let x0 = rng.i32();
+        let st = [rng.i32(), rng.i32(), rng.i32(), rng.i32()];
+        let mut s = st;
+        let yi = idsp::iir::Biquad::<i32>::IDENTITY.update(&mut s, x0);
+        let mut s2 = st;
+        let yh = idsp::iir::Biquad::<i32>::HOLD.update(&mut s2, x0);
+        let k = rng.i32();
+        let mut s3 = st;
+        let yp = idsp::iir::Biquad::<i32>::proportional(k).update(&mut s3, x0);
+        let wp = floor_div(k as i128 * x0 as i128, 1 << 30).clamp(i32::MIN as i128, i32::MAX as i128);
+        if yi != x0 || yh != st[2] || yp as i128 != wp || s != [x0, st[0], yi, st[2]] {
+            rep.violation("biquad-special", "IDENTITY returns x0, HOLD returns y1, proportional(k) returns k*x0/ONE", &format!("state {:?} x0={} k={}", st, x0, k), &format!("{} {} {}", x0, st[2], wp), &format!("{} {} {}", yi, yh, yp));
+        }
+        // floats: the same expression to rounding
+        let (xf, kf) = (x0 as f64 / 65536.0, k as f64 / 1048576.0);
+        let mut sf = [0.0f64; 4];
+        if idsp::iir::Biquad::<f64>::IDENTITY.update(&mut sf, xf) != xf || idsp::iir::Biquad::<f64>::proportional(kf).update(&mut sf, xf) != kf * xf {
+            rep.violation("biquad-special-float", "IDENTITY / proportional on f64", &format!("x0={} k={}", xf, kf), "exact", "other");
+        }
+        rep.count("biquad-special", 3);
+    }
+    // floats: DF1 expression to rounding; DF2T reproduces DF1 from rest for stable filters
+    for _ in 0..(n / 10) {
+        let r = 0.2 + 0.75 * (rng.below(1000) as f64 / 1000.0);
+        let th = 3.0 * (rng.below(1000) as f64 / 1000.0);
+        let (a1, a2) = (-2.0 * r * th.cos(), r * r);
+        let b: [f64; 3] = [rng.range(-100, 100) as f64 / 50.0, rng.range(-100, 100) as f64 / 50.0, rng.range(-100, 100) as f64 / 50.0];
+        let bq = idsp::iir::Biquad::<f64>::from([b[0], b[1], b[2], a1, a2]);
+        let bq32 = idsp::iir::Biquad::<f32>::from([b[0] as f32, b[1] as f32, b[2] as f32, a1 as f32, a2 as f32]);
+        let mut s4 = [0.0f64; 4];
+        let mut s2 = [0.0f64; 2];
+        let mut t4 = [0.0f32; 4];
+        let mut t2 = [0.0f32; 2];
+        let mut scale = 1.0f64;
+        for j in 0..200 {
+            let x = rng.range(-1000, 1000) as f64 / 100.0;
+            let want = b[0] * x + b[1] * s4[0] + b[2] * s4[1] - a1 * s4[2] - a2 * s4[3];
+            let y4 = bq.update(&mut s4, x);
+            let y2 = bq.update(&mut s2, x);
+            let z4 = bq32.update(&mut t4, x as f32);
+            let z2 = bq32.update(&mut t2, x as f32);
+            scale = scale.max(y4.abs());
+            let gain = 1.0 / (1.0 - r).powi(2);
+            if (y4 - want).abs() > 1e-12 * scale.max(1.0) * 50.0 || (y4 - y2).abs() > 1e-12 * scale * gain * 10.0 || ((z4 - z2) as f64).abs() > 6e-7 * scale * gain * 10.0 || ((z4 as f64) - y4).abs() > 6e-7 * scale * gain * 10.0 {
+                rep.violation("biquad-float", "f32/f64 obey the same expression to rounding; DF2T from rest reproduces DF1", &format!("ba={:?} step {}", [b[0], b[1], b[2], a1, a2], j), &format!("{} (df1 f64)", y4), &format!("df2t {} f32 {} {} want {}", y2, z4, z2, want));
+                break;
+            }
+        }
+        rep.count("biquad-float-steps", 800);
+        rep.distinct += 1;
+    }
+    rep.sample("Biquad<i8> with near-full-scale coefficients: b0=b1=a1=-128, x0=x1=y1=-128".into());
+}
+
+macro_rules! windup_case {
+    ($t:ty, $w:expr, $q:expr, $nst:expr, $rng:expr, $rep:expr) => {{
+        let rng: &mut Rng = $rng;
+        let rep: &mut Report = $rep;
+        let g = $w - $q;
+        let one: $t = 1 << $q;
+        // integrating / double integrating / arbitrary filters with limits
+        let style = rng.below(3);
+        let sc = |rng: &mut Rng| -> $t { rng.int($q) as $t };
+        let ba: [$t; 5] = match style {
+            0 => [sc(rng), sc(rng), 0, one.wrapping_neg(), 0],
+            1 => [sc(rng), sc(rng), sc(rng), one.wrapping_neg().wrapping_mul(2), one],
+            _ => [sc(rng), sc(rng), sc(rng), sc(rng), sc(rng)],
+        };
+        let mut bq = idsp::iir::Biquad::<$t>::from(ba);
+        let mut mn = rng.int($w - 1) as $t;
+        let mut mx = rng.int($w - 1) as $t;
+        if mn > mx { core::mem::swap(&mut mn, &mut mx); }
+        mn &= !(((1 as $t) << g) - 1);
+        mx |= ((1 as $t) << g) - 1;
+        bq.set_min(mn);
+        bq.set_max(mx);
+        let x = rng.int($w / 2 + 2) as $t;
+        let start: [$t; $nst] = {
+            let mut a = [0 as $t; $nst];
+            for (i, v) in a.iter_mut().enumerate() { *v = if i == 4 { (rng.wide() & ((1u128 << $q) - 1)) as $t } else { rng.int($w / 2) as $t }; }
+            a
+        };
+        // run until the output has sat on ONE limit for 2 samples (state A), keep going while it stays on that
+        // limit for up to `extra` more samples (state B, same saturation episode)
+        let cont = |st: &[$t; $nst]| -> Option<Vec<$t>> {
+            let mut cont_rng = Rng::new(12345);
+            let mut outs = vec![];
+            let mut s2 = *st;
+            for _ in 0..12 {
+                let xi = cont_rng.int($w / 2 + 2) as $t;
+                outs.push(guard(|| bq.update(&mut s2, xi))?);
+            }
+            Some(outs)
+        };
+        let run = |extra: usize| -> Option<([$t; $nst], Vec<$t>)> {
+            let mut st = start;
+            let mut sat = 0usize;
+            let mut steps = 0;
+            let mut last: Option<$t> = None;
+            loop {
+                let y = guard(|| bq.update(&mut st, x))?;
+                steps += 1;
+                if (y == mn || y == mx) && (last == Some(y) || sat == 0) { sat += 1 } else if y == mn || y == mx { sat = 1 } else { sat = 0 }
+                last = Some(y);
+                if sat >= 2 { break }
+                if steps > 400 { return None }
+            }
+            let lim = last?;
+            for _ in 0..extra {
+                let mut probe = st;
+                let y = guard(|| bq.update(&mut probe, x))?;
+                if y != lim { break }
+                st = probe;
+            }
+            let outs = cont(&st)?;
+            Some((st, outs))
+        };
+        let l2 = 1 + rng.below(40) as usize;
+        if let (Some((sa, oa)), Some((sb, ob))) = (run(0), run(l2)) {
+            let same_samples = sa.iter().zip(sb.iter()).take(4).all(|(a, b)| a == b) || $nst == 2 && sa == sb;
+            let inp = format!("Biquad<i{}>{{ba:{:?},min:{},max:{}}} N={} constant x={} from {:?}: L=2 vs L={}", $w, ba, mn, mx, $nst, x, start, 2 + l2);
+            if $nst != 5 {
+                if sa != sb || oa != ob {
+                    rep.violation("biquad-windup", "state and later response do not depend on the saturation duration", &inp, &format!("{:?} {:?}", sa, oa), &format!("{:?} {:?}", sb, ob));
+                }
+            } else if !same_samples {
+                rep.violation("biquad-windup", "stored inputs and outputs do not depend on the saturation duration", &inp, &format!("{:?}", sa), &format!("{:?}", sb));
+            } else if oa != ob {
+                // only the carried remainder differs
+                rep.violation("biquad5-remainder-after-saturation", "response to later input bit-identical however long the saturation lasted", &inp, &format!("{:?} {:?}", sa, oa), &format!("{:?} {:?}", sb, ob));
+            }
+            rep.count("windup-pairs", 1);
+            rep.distinct += 1;
+        }
+    }};
+}
+
+fn c04(rng: &mut Rng, thorough: bool, hints: &[Vec<String>], rep: &mut Report) {
+    // limits clause: reuse the exact-equation sweep (it checks min <= y <= max on every fitted update)
+    let n = if thorough { 200_000 } else { 20_000 };
+    for i in 0..n {
+        match i % 4 {
+            0 => bq_exact_case!(i8, i16, 8, 6, rng, rep),
+            1 => bq_exact_case!(i16, i32, 16, 14, rng, rep),
+            2 => bq_exact_case!(i32, i64, 32, 30, rng, rep),
+            _ => bq_exact_case!(i64, i128, 64, 62, rng, rep),
+        }
+    }
+    let _ = hints;
+    // the N = 5 remainder witness (known finding) first
+    {
+        let bq = idsp::iir::Biquad::<i8>::from([127, 0, 0, 0, 0]);
+        let mut a = [0i8; 5];
+        let mut b = [0i8; 5];
+        for _ in 0..2 { bq.update(&mut a, 127); }
+        for _ in 0..3 { bq.update(&mut b, 127); }
+        let (ya, yb) = (bq.update(&mut a, 3), bq.update(&mut b, 3));
+        if ya != yb {
+            rep.violation("biquad5-remainder-after-saturation", "response to later input bit-identical however long the saturation lasted", "Biquad<i8>{ba:[127,0,0,0,0]} N=5 from rest: input 127 for L=2 vs L=3, then 3", &ya.to_string(), &yb.to_string());
+        }
+    }
+    let m = if thorough { 100_000 } else { 10_000 };
+    for i in 0..m {
+        match i % 9 {
+            0 => windup_case!(i8, 8, 6, 4, rng, rep),
+            1 => windup_case!(i16, 16, 14, 4, rng, rep),
+            2 => windup_case!(i32, 32, 30, 4, rng, rep),
+            3 => windup_case!(i64, 64, 62, 4, rng, rep),
+            4 => windup_case!(i16, 16, 14, 5, rng, rep),
+            5 => windup_case!(i32, 32, 30, 5, rng, rep),
+            6 => windup_case!(i8, 8, 6, 5, rng, rep),
+            7 => windup_case!(i32, 32, 30, 2, rng, rep),
+            _ => windup_case!(i16, 16, 14, 2, rng, rep),
+        }
+    }
+    // floats: limits and wind-up, bit-exact between durations
+    for _ in 0..(m / 4) {
+        let ki = rng.range(1, 1000) as f64 / 1000.0;
+        let mut bq = idsp::iir::Biquad::<f32>::from([ki as f32, ki as f32 * 0.5, 0.0, -1.0, 0.0]);
+        let (mn, mx) = (-(rng.range(1, 100) as f32), rng.range(1, 100) as f32);
+        bq.set_min(mn);
+        bq.set_max(mx);
+        let x = rng.range(-50, 50) as f32 / 7.0;
+        if x == 0.0 { continue; }
+        let run = |l: usize| {
+            let mut st = [0.0f32; 4];
+            let mut sat = 0;
+            let mut steps = 0;
+            let mut last = f32::NAN;
+            while sat < l && steps < 100000 {
+                let y = bq.update(&mut st, x);
+                if !(mn <= y && y <= mx) { return None; }
+                if (y == mn || y == mx) && (last == y || sat == 0) { sat += 1 } else if y == mn || y == mx { sat = 1 } else { sat = 0 }
+                last = y;
+                steps += 1;
+            }
+            let mut outs = vec![];
+            for j in 0..10 { outs.push(bq.update(&mut st, -x * (j as f32)).to_bits()); }
+            Some(outs)
+        };
+        let (a, b) = (run(2), run(2 + rng.below(50) as usize));
+        match (a, b) {
+            (Some(a), Some(b)) => if a != b { rep.violation("biquad-windup-float", "f32 response bit-identical however long the saturation lasted", &format!("ki={} limits [{}, {}] x={}", ki, mn, mx, x), &format!("{:?}", a), &format!("{:?}", b)); },
+            _ => rep.violation("biquad-limits-float", "f32 output within limits", &format!("ki={} limits [{}, {}] x={}", ki, mn, mx, x), "within", "outside"),
+        }
+        rep.count("windup-float-pairs", 1);
+    }
+    rep.sample("integrating Biquad<i32> (a1 = -ONE) saturating on max for L = 2 vs L = 2 + l".into());
 }
